@@ -164,7 +164,7 @@ def run_spec(ctx, rep, spec, model, only=None):
 
 
 def run(ctx, rep, model=True):
-    n = 30 if ctx.quick else 300
+    n = 50 if ctx.quick else 400
     for i in range(n):
         spec = plotgen.random_spec(ctx.rng, nlev=[1, 2, 3, 4][i % 4] if i % 8 else 4, data="smallint", B=2,
                                    repeats=(i % 3 == 2), exact=(i % 5 != 4))
